@@ -10,6 +10,7 @@ CONSTANTS
   UseAt = TRUE
   UseG92E = TRUE
   UseInch = FALSE
+  UseM83 = FALSE
   EMax = 6
 CONSTRAINT Bound
 VIEW View
